@@ -179,10 +179,29 @@ fn gen_posting(rng: &mut Rng) -> PostingSpec {
         }
     } else if kind < 9 {
         // assertion only
-        if rng.chance(1, 5) {
-            assertion = Some(("0".to_string(), 0));
-        } else {
-            assertion = Some((format!("{} {}", num, c), 1 + width(c)));
+        let aw = width(mark) + width(&account);
+        match rng.below(10) {
+            0 | 1 => assertion = Some(("0".to_string(), 0)),
+            2 | 3 => {
+                // a parenthesised expression: what follows its first number trails behind the column
+                let k = 2 + rng.below(8);
+                let text = match rng.below(3) {
+                    0 => format!("({} {} + 20 {})", num, c, c),
+                    1 => format!("({} {} * {})", num, c, k),
+                    _ => format!("({} * {} {})", k, num, c),
+                };
+                // aligned is the number that carries the commodity (as for a posting amount)
+                let aligned = if text.starts_with(&format!("({} {} ", num, c)) { 1 + num.len() } else { 1 + k.to_string().len() + 3 + num.len() };
+                let trailing = width(&text) - aligned;
+                assertion = Some((text, trailing));
+            }
+            4 | 5 => {
+                // a long commodity name; one in two is chosen so that the padding is exactly 64 columns
+                let len = if aw + 15 <= 60 && rng.chance(1, 2) { aw + 15 } else { 10 + rng.usize(40) };
+                let long: String = (0..len).map(|i| (b'A' + (i % 26) as u8) as char).collect();
+                assertion = Some((format!("{} {}", num, long), 1 + len));
+            }
+            _ => assertion = Some((format!("{} {}", num, c), 1 + width(c))),
         }
     }
     let mut meta = Vec::new();
